@@ -24,5 +24,10 @@ let run toks =
   | "scale" -> let r = rg c in show (get (lr_scale r (cn c)))
   | "mul" -> let r = rg c in let s = rg c in show (get (lr_mul r s))
   | "rmie" -> let r = rg c in let s = rg c in b (get (lr_rmie r s))
+  (* checked variants: never panic on valid ranges, None exactly where the panicking variant panics
+     (C15g_checked_add, C15g_checked_mul, C15g_checked_rmie in coq/gendep) *)
+  | "cadd" -> let r = rg c in let s = rg c in (match lr_add r s with Some x -> "S " ^ show x | None -> "N")
+  | "cmul" -> let r = rg c in let s = rg c in (match lr_mul r s with Some x -> "S " ^ show x | None -> "N")
+  | "crmie" -> let r = rg c in let s = rg c in (match lr_rmie r s with Some x -> "S " ^ b x | None -> "N")
   | "shift" -> show (lr_shift (rg c))
   | _ -> failwith "bad op"
